@@ -27,6 +27,11 @@ GInit == /\ tid \in 1..Len(Given)
 GNext == Next /\ UNCHANGED tid
 GSpec == GInit /\ [][GNext]_gvars
 
+\* fault-free sibling tables (sib = 0: none given)
+HasSib == Given[tid].sib # 0
+SibU == [w \in Wraps |-> Given[Given[tid].sib].U[w - NF]]
+SibE == [f \in Frames |-> Given[Given[tid].sib].E[f]]
+OutwardKept == (pc = "done" /\ HasSib /\ \A i \in 1..Len(errors) : errors[i][1] # "guard") => OutwardKeptOn(SibU, SibE)
 Export == [tid |-> tid, pc |-> pc, out |-> out, leaf |-> leaf, errors |-> errors]
 Emit == (pc \in {"done", "escaped"}) => PrintT(<<"EMIT", ToJson(Export)>>)
 BoundEmit == Bound /\ Emit
